@@ -8,6 +8,7 @@ import (
 	"go/token"
 	"go/types"
 	"os"
+	"os/exec"
 	"path/filepath"
 	"regexp"
 	"sort"
@@ -47,6 +48,7 @@ type Engine struct {
 	funcPkg     map[*types.Func]*packages.Package
 	declsIndexed bool
 	loadErrs    []string
+	xlangErr    string
 }
 
 func (e *Engine) nodeSrc(n ast.Node) string {
@@ -209,8 +211,32 @@ func (e *Engine) loadPrelude(path string) error {
 	if err != nil {
 		return err
 	}
-	e.blocks = map[string]*preludeBlock{}
-	e.preludeFuns = map[string]funSig{}
+	if e.blocks == nil {
+		e.blocks = map[string]*preludeBlock{}
+		e.preludeFuns = map[string]funSig{}
+	}
+	return e.loadPreludeText(string(data))
+}
+
+// loadXlang runs the cross-language extractor on the current tree and loads its blocks.
+func (e *Engine) loadXlang() {
+	cmd := exec.Command("python3", filepath.Join(e.verifDir, "specs", "xlang", "extract.py"), e.repo)
+	var out, errb bytes.Buffer
+	cmd.Stdout, cmd.Stderr = &out, &errb
+	if err := cmd.Run(); err != nil {
+		e.xlangErr = strings.TrimSpace(errb.String())
+		if e.xlangErr == "" {
+			e.xlangErr = "SPEC-SOURCE-CHANGED: extractor failed: " + err.Error()
+		}
+		return
+	}
+	if err := e.loadPreludeText(out.String()); err != nil {
+		e.xlangErr = "SPEC-SOURCE-CHANGED: " + err.Error()
+	}
+}
+
+func (e *Engine) loadPreludeText(text string) error {
+	data := []byte(text)
 	var cur *preludeBlock
 	for _, line := range strings.Split(string(data), "\n") {
 		t := strings.TrimSpace(line)
@@ -337,6 +363,9 @@ func (x *Exec) need(name string) {
 	}
 	b, ok := x.eng.blocks[blk]
 	if !ok {
+		if x.eng.xlangErr != "" && (strings.HasPrefix(name, "sol_") || strings.HasPrefix(name, "ral_")) {
+			specFail("%s", x.eng.xlangErr)
+		}
 		return
 	}
 	if x.needPrelude[blk] {
